@@ -311,7 +311,7 @@ def run(tier):
     timeout = 360
   else:
     p = dict(nmax=8, kmax=4, cmax=4, nested=[2, 3], three_cuts=True, pipes=[(3, 1, 3), (4, 2, 2), (5, 1, 5), (7, 3, 3), (2, 3, 2)], heavy=True)
-    timeout = 1200
+    timeout = 3600      # slowest obligations (nested 2-cut) need ~1700 CPU s on the unchanged tree
   rep.bounds(**p, per_condition_timeout_s=timeout,
              note='n = source length, (i,k) shard, c1..c3 = elements delivered between successive checkpoint/restore cycles (0 allowed)')
   rep.outside('num_threads > 0 (elements prefetched into queues at checkpoint time: whole-program concurrency, not encodable)',
